@@ -377,10 +377,8 @@ class J1939_22:
                     if buf['dest_address'] != ParameterGroupNumber.Address.GLOBAL:
                         self.__send_tp_abort(buf['dest_address'], buf['src_address'], buf['session'], self.ConnectionAbortReason.TIMEOUT, buf['pgn'])
                         self._rcv_buffer.pop(bufid, None)
-                        self.__put_rts_cts_session(buf['session'])
                     else:
                         self._rcv_buffer.pop(bufid, None)
-                        self.__put_bam_session(buf['session'])
                     # TODO: should we notify our CAs about the cancelled transfer?
 
         # check multi-pg send buffers for timeout
@@ -531,7 +529,6 @@ class J1939_22:
                 # according SAE J1939-22 we have to send an ABORT if an active
                 # transmission is already established
                 self.__send_tp_abort(dest_address, src_address, session_num, self.ConnectionAbortReason.BUSY, pgn)
-                self.__put_rts_cts_session(session_num)
                 return
 
             # limit max number segments
@@ -559,7 +556,6 @@ class J1939_22:
             num_segments = data[7] # Maximum number of segments that can be sent
             if buffer_hash not in self._snd_buffer:
                 self.__send_tp_abort(dest_address, src_address, session_num, self.ConnectionAbortReason.RESOURCES, pgn)
-                self.__put_rts_cts_session(session_num)
                 return
             if num_segments == 0:
                 # SAE J1939/22
@@ -595,7 +591,6 @@ class J1939_22:
         elif control_byte == self.TpControlType.EOM_STATUS:
             buffer_hash = self._buffer_hash(session_num, src_address, dest_address)
             if buffer_hash not in self._rcv_buffer:
-                self.__put_rts_cts_session(session_num)
                 return
             pgn = self._rcv_buffer[buffer_hash]['pgn']
             if (self._rcv_buffer[buffer_hash]['message_size'] == message_size) and (self._rcv_buffer[buffer_hash]['num_segments'] == segment_num) and (len(self._rcv_buffer[buffer_hash]['data']) == message_size):
@@ -606,13 +601,11 @@ class J1939_22:
                 # incomplete or inconsistent message: never deliver it, tell the originator
                 self.__send_tp_abort(dest_address, src_address, session_num, self.ConnectionAbortReason.RESOURCES, pgn)
             del self._rcv_buffer[buffer_hash]
-            self.__put_rts_cts_session(session_num)
 
         elif control_byte == self.TpControlType.EOM_ACK:
             buffer_hash   = self._buffer_hash(session_num, dest_address, src_address)
             if buffer_hash not in self._snd_buffer:
                 self.__send_tp_abort(dest_address, src_address, session_num, self.ConnectionAbortReason.RESOURCES, pgn)
-                self.__put_rts_cts_session(session_num)
                 return
             # TODO: should we inform the application about the successful transmission?
             # Notify subscribers here to be used for the memory access server to know when to send operation complete
